@@ -46,7 +46,7 @@ artefacts are in `seeded/<id>/` (`patch.diff`, `demo.py`, `notes.md`, `meta.json
 |---|---|---|---|---|
 ''' + "\n".join(rows) + '''
 
-**What the misses taught.** Five waves of seeded bugs (20 + 20 + 40 + 20 + 20 changes, the fifth - `*-w7` - on the tree repaired after the bug hunt; the fourth wave's agents were told that every filter with up to three operators over a small alphabet is already compared and asked for something beyond such a sweep). After each wave the checks that
+**What the misses taught.** Six waves of seeded bugs (20 + 20 + 40 + 20 + 20 + 40 changes, the fifth - `*-w7` - and the sixth - `*-w10A/B` - on the tree repaired after the bug hunts; the fourth wave's agents were told that every filter with up to three operators over a small alphabet is already compared and asked for something beyond such a sweep). After each wave the checks that
 missed a change were strengthened *in kind* (not by adding the failing input), all
 checks were re-run on the unchanged tree, and every earlier seed was re-checked
 (`tools/seed_recheck.sh`, also with another `VERIF_SEED`). All seeds above are detected by
@@ -87,6 +87,16 @@ the committed quick tier of their own property. The recurring blind spots:
   rarely used node kind in every well-typed argument position (C12), handlers attached
   after the first visit (C16), AST well-formedness of the returned node (C10), the nesting
   ORDER of unary-like operators over the same leaves (C09).
+* *Wave 10* (two changes per agent, 40 in all, 26 reported at once; the 14 misses each named a value the alphabets lacked):
+  keyword case in C01 itself (`flag eq TRUE` through the SQLite dialect - C03 and C19 had it, C01 did not); ordering comparisons in
+  lambda bodies whose bound equals a stored value (the complement of `>=` is `<`, not `<=`; C04); a keyword followed by a non-ASCII
+  letter (`null\u00e9`; C06); mixed in-lists whose first element is not a string (C07); quote *and* wildcard in one LIKE literal (C09
+  replaces literals by unique tokens, so string contents got a layer of their own); a 5 000-digit integer in the quick tier and
+  finaliser placements under the determinism clause (C10); named parameters written in an order that is not sorted (C11); a list on
+  the LEFT of `in` (C12); an alias key of three and more segments rooted at the lambda variable (C14); every function name SQLAlchemy
+  registers x 0/1/2 arguments x four dialects before / after the import instead of nine names (C15 `registry-sweep`), a narrowing
+  non-default manager and a related manager as base (C15); `typecheck` against every single class and every pair, so that `Date` in
+  `DateTime` cannot pass as a substring (C18); in-lists and named parameters with repeated string items in the hash-seed corpus (C20).
 * *Wave 7* (fresh changes on the repaired tree, 15 of 20 reported at once): a precedence row turned `nonassoc` put `None` entries into
   the LR action table and the table walker of C05 crashed before the violations of earlier layers were printed - the runner now
   reports violations found before a later layer fails, and the walker skips error entries; duration counts beyond the next unit
